@@ -302,6 +302,26 @@ func runC15(c *Ctx) {
 					c.asyncCase(kind, n, p)
 				}
 			}
+			for _, n := range []int{64, 65, 100, 129, 257} {
+				p := make([]int, n)
+				for j := range p {
+					p[j] = (j*37 + 11) % n // a fixed scrambled order (37 is coprime to these sizes... or close enough: duplicates are repaired by the controller)
+				}
+				seen := map[int]bool{}
+				q := p[:0]
+				for _, v := range p {
+					if !seen[v] {
+						seen[v] = true
+						q = append(q, v)
+					}
+				}
+				for v := 0; v < n; v++ {
+					if !seen[v] {
+						q = append(q, v)
+					}
+				}
+				c.asyncCase(kind, n, q)
+			}
 			for i := 0; i < c.N(6, 60); i++ {
 				n := 5 + r.Intn(c.N(40, 200))
 				p := make([]int, n)
@@ -333,6 +353,7 @@ func runC15(c *Ctx) {
 		c.M.OMapAsync(o, &Fn{Name: []string{"id", "inc", "idx", "tostr"}[r.Intn(4)]})
 		c.St.Eval("seq:"+t.Token()+to.Token(), true)
 	}
+	c.longLists("C15")
 	// nested and concurrent async calls: calls are independent of each other (a lock shared between calls would deadlock)
 	c.M.Case("nested-and-concurrent-async")
 	for rep := 0; rep < c.N(3, 20); rep++ {
